@@ -142,7 +142,7 @@ impl Scenario for C07 {
             components_stubbed: &["TCP (SimNet)", "EPMD (stub)", "remote node (handshake acceptor + independent frame, header and term reader)"],
             assumptions: &["payloads come from the sub-space with an unambiguous denotation (DESIGN 2.4); node-local identifier forms are not generated"],
             fault_prefixes: &["fault.", "net."],
-            expected_probes: &["probe.c07.frame_checked_passthrough", "probe.c07.frame_checked_header", "probe.c07.interleaved_tasks", "probe.c07.op_failed_after_fault", "probe.c07.unlink_id_above_2_63", "probe.c07.asymmetric_flag_offer", "probe.c07.node_local_identifier", "probe.c07.same_process_other_form", "probe.c07.same_pair_again", "probe.c07.both_identifiers_node_local", "probe.c07.message_of_megabytes", "probe.c07.second_connect_refused", "probe.c07.local_side_is_a_live_process", "probe.c07.unencodable_rejected_cleanly", "probe.c07.nothing_written_after_failed_handshake"],
+            expected_probes: &["probe.c07.frame_checked_passthrough", "probe.c07.frame_checked_header", "probe.c07.interleaved_tasks", "probe.c07.op_failed_after_fault", "probe.c07.unlink_id_above_2_63", "probe.c07.asymmetric_flag_offer", "probe.c07.node_local_identifier", "probe.c07.same_process_other_form", "probe.c07.same_pair_again", "probe.c07.both_identifiers_node_local", "probe.c07.message_of_megabytes", "probe.c07.second_connect_refused", "probe.c07.second_connection_by_the_same_task", "probe.c07.local_side_is_a_live_process", "probe.c07.unencodable_rejected_cleanly", "probe.c07.nothing_written_after_failed_handshake"],
         }
     }
 }
@@ -250,13 +250,26 @@ async fn scenario(w: &Arc<World>, p: &Plan) {
         failed_handshake(w, &p).await;
         return;
     }
+    // a second connection (made after the first one's operations) gets a collector of its own, without faults
+    let sink_b: Arc<Mutex<Vec<u8>>> = Arc::new(Mutex::new(Vec::new()));
+    let ctl_b: Arc<Mutex<Option<crate::net::PipeCtl>>> = Arc::new(Mutex::new(None));
+    let mut p_calm = (*p).clone();
+    p_calm.fault = String::new();
+    let p_calm = Arc::new(p_calm);
     {
         let (sink2, p2, ctl2) = (sink.clone(), p.clone(), ctl.clone());
+        let (sink_b2, p_b, ctl_b2) = (sink_b.clone(), p_calm.clone(), ctl_b.clone());
         install_conforming_peer(
             w,
             NetCfg { client: p.client.clone(), server: p.server.clone(), cap: p.cap as usize },
             peer_flags,
-            move |w, conn, _seen| Box::pin(collector(conn, sink2.clone(), p2.clone(), w, ctl2.clone())),
+            move |w, conn, _seen| {
+                if conn.conn_index > 0 {
+                    Box::pin(collector(conn, sink_b2.clone(), p_b.clone(), w, ctl_b2.clone()))
+                } else {
+                    Box::pin(collector(conn, sink2.clone(), p2.clone(), w, ctl2.clone()))
+                }
+            },
         );
     }
     if p.tasks.iter().flatten().any(|o| o.size == BIG) {
@@ -475,6 +488,24 @@ async fn scenario(w: &Arc<World>, p: &Plan) {
         }
         drain(&ctl).await;
         drop(conn);
+        if p.salt & 0x30 == 0x30 {
+            // a fresh Connection made by the same task afterwards carries its own frames and nothing of the
+            // first one's, whatever happened there (failed writes included)
+            let cfg = ConnectionConfig::new(SUT_NAME, PEER_NAME, COOKIE).with_flags(DistributionFlags::new(flags)).with_timeout(Duration::from_secs(600));
+            let mut conn_b = Connection::new(cfg);
+            if conn_b.connect().await.is_ok() {
+                let op = Op { kind: "send".into(), seed: p.salt ^ 0xb, size: 4, pause_ms: 0 };
+                let to = peer_pid_for(9, 0, op.seed);
+                let from = local_pid_for(9);
+                let pl = tagged_payload(9, 0, &op);
+                let res = conn_b.send_message(to_pid(&from).unwrap(), to_pid(&to).unwrap(), from_val(&pl)).await;
+                let want = Want { task: 9, idx: 0, kind: "send".into(), control: vec![Some(Val::int(2)), Some(Val::atom("")), Some(to)], payload: Some(pl), ok: res.is_ok(), err: res.err().map(|e| e.to_string()).unwrap_or_default(), expect_err: false };
+                drain(&ctl_b).await;
+                tokio::time::sleep(Duration::from_millis(200)).await;
+                w.stat("probe.c07.second_connection_by_the_same_task");
+                evaluate(w, &p_calm, &sink_b.lock().unwrap(), &[want]);
+            }
+        }
     }
     drain(&ctl).await;
     tokio::time::sleep(Duration::from_millis(500)).await;
